@@ -63,10 +63,15 @@ func c09OpenCheck(d *secDoc, pw string) (string, string) {
 		defer rd.Close()
 	}
 	if !exp.known {
-		// the password has no prepared form for this revision: outside the
-		// property's quantifier; still nothing may be exposed
+		// the password has no prepared form for this revision (no PDFDocEncoding for R <= 4,
+		// rejected by SASLprep for R >= 5): it differs from both passwords, so it is a wrong
+		// password like any other
 		if err == nil {
 			return "C09-unpreparable-password-opens", fmt.Sprintf("password %q cannot be prepared for R=%d but the file opens", pw, d.sec.R)
+		}
+		var ae *pdf.AuthenticationError
+		if !errors.As(err, &ae) {
+			return "C09-unpreparable-password-error-type", fmt.Sprintf("password %q (no prepared form for R=%d): error is %T (%v), not *AuthenticationError", pw, d.sec.R, err, err)
 		}
 		return "", ""
 	}
